@@ -547,17 +547,18 @@ class IntersectionMatcher(AdditiveBiMatcher):
                 # quality when added to the most B can contribute anywhere
                 # (A may skip past the end of B's current block, so B's
                 # current block quality is not a bound there)
-                sk = a.skip_to_quality(minquality - b.max_quality())
-                skipped += sk
-                if not sk and a.is_active():
+                a_id = a.id()
+                skipped += a.skip_to_quality(minquality - b.max_quality())
+                if a.is_active() and a.id() == a_id:
                     # The matcher couldn't skip ahead for some reason, so just
-                    # advance and try again
+                    # advance and try again. (Compare positions: a composite
+                    # can move without having skipped a whole block.)
                     a.next()
             else:
                 # And vice-versa
-                sk = b.skip_to_quality(minquality - a.max_quality())
-                skipped += sk
-                if not sk and b.is_active():
+                b_id = b.id()
+                skipped += b.skip_to_quality(minquality - a.max_quality())
+                if b.is_active() and b.id() == b_id:
                     b.next()
 
             if not a.is_active() or not b.is_active():
